@@ -59,6 +59,7 @@ def HX_Eff(Arrangement, Ntu, c, Passes=None, Rows=None, Cmin_Phase=None):
     """Return heat-exchanger effectiveness for the specified arrangement/NTU/c ratio."""
     if Passes == None:
         Passes = 1
+    Arrangement = getattr(Arrangement, "value", Arrangement)
 
     Ntu = Ntu / Passes
     if Ntu > 0 and c >= 0:
@@ -75,28 +76,28 @@ def HX_Eff(Arrangement, Ntu, c, Passes=None, Rows=None, Cmin_Phase=None):
         elif Arrangement == HX.PF.value:
             eff = (1 - math.exp(-Ntu * (1 + c))) / (1 + c)
         # Cross Flow - Both Streams Unmixed Effectiveness
-        elif Arrangement == HX.CrFUU:
+        elif Arrangement == HX.CrFUU.value:
             if Rows == None or Cmin_Phase == None:
                 eff = CrossflowUnmixedEff1(Ntu, c)
             else:
                 eff = CrossflowUnmixedEff2(Ntu, c, Rows, Cmin_Phase)
         # Cross Flow - Both Streams Mixed Effectiveness
-        elif Arrangement == HX.CrFMM:
+        elif Arrangement == HX.CrFMM.value:
             eff = (
                 1 / (1 - math.exp(-Ntu)) + c / (1 - math.exp(-Ntu * c)) - 1 / Ntu
             ) ** -1
         # Cross Flow - Stream Cmax Unmixed Effectiveness
-        elif Arrangement == HX.CrFMUmax:
+        elif Arrangement == HX.CrFMUmax.value:
             eff = 1 - math.exp(-1 / c * (1 - math.exp(-Ntu * c)))
         # Cross Flow - Stream Cmin Unmixed Effectiveness
-        elif Arrangement == HX.CrFMUmin:
+        elif Arrangement == HX.CrFMUmin.value:
             eff = 1 / c * (1 - math.exp(-c * (1 - math.exp(-Ntu))))
         # Shell and Tube - One Shell Pass; 2,4,6, etc., Tube Passes Effectiveness
         elif Arrangement == HX.ShellTube.value:
             d = (1 + c**2) ** 0.5
             eff = 2 / ((1 + c) + d**0.5 * Coth(Ntu * d / 2))
         # Condensing or Evaporating of One Fluid
-        elif Arrangement == HX.CondEvap:
+        elif Arrangement == HX.CondEvap.value:
             eff = 1 - math.exp(-Ntu)
         else:
             eff = HX_Eff(HX.CF.value, Ntu, c, 1)
@@ -114,6 +115,7 @@ def HX_NTU(Arrangement, eff, c, Passes=None):
     """Compute the NTU corresponding to a target effectiveness for a given arrangement."""
     if Passes == None:
         Passes = 1
+    Arrangement = getattr(Arrangement, "value", Arrangement)
 
     if Passes > 1:
         Eff_p = MultiPassNTU(eff, c, Passes)
@@ -130,16 +132,16 @@ def HX_NTU(Arrangement, eff, c, Passes=None):
         elif Arrangement == HX.PF.value:
             Ntu = -math.log(1 - eff * (1 + c)) / (1 + c)
         # Cross Flow - Both Streams Unmixed NTU
-        elif Arrangement == HX.CrFUU:
+        elif Arrangement == HX.CrFUU.value:
             Ntu = HX_NTU_Numerical(Arrangement, eff, c)
         # Cross Flow - Both Streams Mixed NTU
-        elif Arrangement == HX.CrFMM:
+        elif Arrangement == HX.CrFMM.value:
             Ntu = HX_NTU_Numerical(Arrangement, eff, c)
         # Cross Flow - Stream Cmax Unmixed NTU
-        elif Arrangement == HX.CrFMUmax:
+        elif Arrangement == HX.CrFMUmax.value:
             Ntu = -1 / c * math.log(1 + c * math.log(1 - eff))
         # Cross Flow - Stream Cmin Unmixed NTU
-        elif Arrangement == HX.CrFMUmin:
+        elif Arrangement == HX.CrFMUmin.value:
             Ntu = -math.log(1 + 1 / c * math.log(1 - eff * c))
         # Shell and Tube - One Shell Pass; 2,4,6, etc., Tube Passes NTU
         elif Arrangement == HX.ShellTube.value:
@@ -147,7 +149,7 @@ def HX_NTU(Arrangement, eff, c, Passes=None):
             D2 = 1 + c + (1 + c**2) ** (1 / 4)
             Ntu = (1 + c**2) ** -0.5 * math.log((2 - eff * D1) / (2 - eff * D2))
         # Condensing or Evaporating of One Fluid
-        elif Arrangement == HX.CondEvap:
+        elif Arrangement == HX.CondEvap.value:
             Ntu = -math.log(1 - eff)
         else:
             Ntu = -1
